@@ -35,7 +35,7 @@ BOUNDS = {
     'quick': 'STFT: (L,S) in {(4,2),(5,2),(5,3),(6,3),(4,4),(5,5),(7,3)} x {causal, centered, centered+kaldi}, K=2 symbolic cuts (zero-length chunks '
              'allowed), N <= 2L+S+2; inductive step: chunk length <= L+S, T unbounded; frame_by_frame: symbolic chunk_size>=1, N<=L+S+2. '
              'SI: S=2, M in {3,4}, D in {6,8}, K=2, N <= 10, both styles.',
-    'thorough': 'STFT: L<=9 grid, K=3 cuts, N <= 3L+S; inductive step chunk <= 2L; SI: S in {2,3}, M in {2,3,4}, D up to 9, K<=3, N<=14.',
+    'thorough': 'STFT: L<=9 grid, K=3 cuts, N <= 3L+S; inductive step chunk <= 2L; frame_by_frame_calculation every (N, chunk_size) with N <= 2L+S (L <= 6) or N <= L+S+2 (L >= 7); SI: S in {2,3}, M in {2,3,4}, D up to 9, K<=3, N<=14.',
 }
 OUTSIDE = ['floating-point round-off (terms compared over the reals / structurally)',
            'N beyond the bound in the bounded-history formulation (covered for STFT by the inductive step)',
@@ -69,7 +69,7 @@ def configs(tier, seed):
         cfgs.append(dict(kind='stft_step', name='stft_step L%d S%d %s%s' % (L, S, style, '+kaldi' if kaldi else ''),
                          L=L, S=S, style=style, kaldi=kaldi, CMAX=(L + S if tier == 'quick' else 2 * L)))
         cfgs.append(dict(kind='stft_fbf', name='stft_fbf L%d S%d %s%s' % (L, S, style, '+kaldi' if kaldi else ''),
-                         L=L, S=S, style=style, kaldi=kaldi, NMAX=L + S + 2 if tier == 'quick' else 2 * L + S))
+                         L=L, S=S, style=style, kaldi=kaldi, NMAX=L + S + 2 if tier == 'quick' else (2 * L + S if L <= 6 else L + S + 2)))
     cfgs.extend(si.c01_configs(tier))
     return cfgs
 
